@@ -1,6 +1,8 @@
 // Package neg: every function must be rejected by the translator (see translate_test.go).
 package neg
 
+import "sync/atomic"
+
 import "errors"
 
 func Shadow(a int) int {
@@ -278,3 +280,50 @@ func ForeverNoFuel(s uint32) int {
 	}
 	return n
 }
+
+// fifth round (search.go)
+type Ent struct{ hash uint64 }
+
+type Store struct {
+	tab   []Ent
+	other []Ent
+	flag  *int32
+	seen  map[uint64]int
+	fr    [3]struct {
+		p *Store
+		v uint64
+		w uint64
+	}
+}
+
+// a slot pointer used as a value
+func (s *Store) SlotEscapes(h uint64) *Ent {
+	te := &s.tab[0]
+	q := te
+	return q
+}
+
+// a slot pointer given something that is not `&view[e]`
+func (s *Store) SlotOther(h uint64) *Ent {
+	te := &s.tab[0]
+	te = &s.other[0]
+	return te
+}
+
+// two atomic loads of one flag may see different values
+func (s *Store) TwoLoads() int32 {
+	return atomic.LoadInt32(s.flag) + atomic.LoadInt32(s.flag)
+}
+
+// a write to a map whose nil-ness is not a declared view
+func (s *Store) MapNoNil(k uint64) {
+	s.seen[k] = 1
+}
+
+// an indexed field that is not a declared projection
+func (s *Store) ProjUndeclared(i int) uint64 {
+	return s.fr[i].v
+}
+
+// signed division by a variable
+func SignedDiv(a, b int) int { return a / b }
